@@ -64,8 +64,13 @@ def nested_info(levels):
     return out
 
 
+# names left behind by an earlier, dead process that had the pid this process got (process
+# ids are recycled; the namespace of a busy machine is full of such leftovers): not ours
+_STALE = set(glob.glob(f"/dev/shm/sem.loky-{os.getpid()}-*"))
+
+
 def own_sems():
-    return sorted(glob.glob(f"/dev/shm/sem.loky-{os.getpid()}-*"))
+    return sorted(x for x in glob.glob(f"/dev/shm/sem.loky-{os.getpid()}-*") if x not in _STALE)
 
 
 def _settle():
@@ -122,6 +127,9 @@ def _arm_kill(where, nth):
 
 def part_sem(args, out):
     """C13: a history of executor/primitive creation, then an ending."""
+    if args.get("verbose_tracker"):
+        import loky.backend.resource_tracker as _rt
+        _rt.VERBOSE = True      # the tracker logs every request it serves (diagnostics)
     from loky.process_executor import ProcessPoolExecutor
     if args["ending"].startswith("kill_at_"):
         where, nth = args["ending"][8:].split(":")
